@@ -36,4 +36,9 @@ KDomsQuick    == Pairs
 KDomsTriples  == Triples
 KDomsQuads    == Quads
 KDomsTiny     == {{B0, Vcd}, {B0, Va4}, {Cn1, Ce1}}
+KDomsDeep     == Triples \cup Quads
+(* purge across the CD / scope / name / type / class partitions and the cut tree *)
+KDomsPurge    == {{B0, Vcd}, {B0, Va4}, {Va4, Pre("n", "T1", "C1", TRUE, "a4")}, {Va4, Va4n},
+                  {Va4, Pre("e", "T1", "C1", FALSE, "a4")}, {B0, Vname}, {B0, Vtype}, {B0, Vclass},
+                  {Cn1, Cs1}, {Cn1, Cn2}, {Cn1, Ce1}}
 =============================================================================
